@@ -154,6 +154,7 @@ func init() {
 			func(c *Ctx) { c.ruleHashKey("R-HASHKEY", c.scopeData()); c.R.Floor("R-HASHKEY", 1) },
 			func(c *Ctx) { c.ruleDivZero("R-DIVZERO", c.scopeData()); c.R.Floor("R-DIVZERO", 1) },
 			func(c *Ctx) { c.ruleTerm("R-TERM", c.entryData(), false); c.R.Floor("R-TERM", 4) },
+			func(c *Ctx) { c.ruleMustCall("R-MUSTCALL", c.M.Reachable(append(c.entryLoad(), c.entryData()...), nil)) },
 		},
 	})
 	register(&PropSpec{
@@ -274,6 +275,7 @@ func init() {
 				c.R.Floor("R-DIVZERO", 1)
 			},
 			func(c *Ctx) { c.ruleTerm("R-TERM", c.entryData(), false); c.R.Floor("R-TERM", 4) },
+			func(c *Ctx) { c.ruleMustCall("R-MUSTCALL", c.M.Reachable(append(c.entryLoad(), c.entryData()...), nil)) },
 			func(c *Ctx) {
 				fns := map[*ssa.Function]bool{}
 				for _, f := range c.entryLoad() {
@@ -420,6 +422,7 @@ func init() {
 			"mutexes are the only synchronisation to recognise. NOT decided: races inside third-party packages; result equality with a sequential run.",
 		Assumptions: []string{wellFormed, "regexp.Regexp is documented safe for concurrent use"},
 		Rules: []func(*Ctx){
+			func(c *Ctx) { c.ruleStepData("R-STEPDATA") },
 			func(c *Ctx) {
 				entries := append(c.entryData(pureAPI...), c.entryStep()...)
 				entries = append(entries, c.entryUnits()...)
